@@ -101,7 +101,7 @@ func c11Run(in c11In) c11Out {
 		defer w.Mu.Unlock()
 		r := map[string]vk.Node{}
 		for h, n := range w.Nodes {
-			r[h] = *n
+			r[h] = n.Snapshot()
 		}
 		return r
 	}
